@@ -626,3 +626,11 @@ def parity_numeric(ctx):
             else:
                 ctx.unsure('keys:%s: parity test `%s` not recognised' % (q, txt))
     ctx.floor(n, 3, 'choices between the prefixes 02 and 03')
+
+
+@PROP.obligation('C04.history-free')
+def history_free(ctx):
+    """hash160, address and WIF of a key are functions of the key and of the arguments of THIS call: no method of Key / HDKey reads a memo
+    that depends on the arguments of an earlier call (Key._address_obj) outside its validating accessor, or fills another memo from it."""
+    from .common_cache import history_reads as run
+    run(ctx, 'keys', [['Key', 'HDKey']], 'Key / HDKey', 'the hash / address reported for the key is the one of the form (compressed or not, prefix) asked for by an earlier call')
